@@ -80,13 +80,15 @@ def text_nodes(rng, tag, nlines=None, empty_lines=0.0, **linekw):
         if i:
             nodes.append(['b'])
             if rng.random() < empty_lines:
-                k = rng.random()
-                if k < 0.5:
-                    nodes.append(['b'])
-                elif k < 0.75:
-                    nodes += [['t', ''], ['b']]
-                else:
-                    nodes += [['t', rng.choice([' ', '  ', '\u00a0'])], ['b']]
+                # one to three empty lines in a row, in every node shape
+                for _rep in range(rng.choice([1, 1, 2, 3])):
+                    k = rng.random()
+                    if k < 0.5:
+                        nodes.append(['b'])
+                    elif k < 0.75:
+                        nodes += [['t', ''], ['b']]
+                    else:
+                        nodes += [['t', rng.choice([' ', '  ', '\u00a0'])], ['b']]
         s = T.line(rng, tag=f'{tag}.{i}', **linekw)
         if rng.random() < 0.1:
             s = ' ' + s
